@@ -42,7 +42,8 @@ func (m *DelegationRewardsMethod) Run(evm *vm.EVM, contract *vm.Contract) ([]byt
 		return nil, err
 	}
 	stateDB := evm.StateDB.(types.ExtStateDB)
-	cacheCtx := stateDB.Context()
+	// the reward calculation moves the validator period: do it on a branch that is never written back
+	cacheCtx, _ := stateDB.Context().CacheContext()
 
 	valAddr := args.GetValidator()
 	validator, err := m.stakingKeeper.GetValidator(cacheCtx, valAddr)
